@@ -301,3 +301,41 @@ Definition dstep (t : nat) (s : dst) : dst :=
   end.
 Definition drun (s : dst) (sched : list nat) : dst := fold_left (fun s t => dstep t s) sched s.
 Definition dinit : dst := mkD 1 false 0%nat 0%nat 0.
+
+(* ------------------------------------------------------------------------------------ *)
+(** * (g) awaiting an async derived value while a user holds its WRITE guard
+    thread 0: `let mut g = d.write();` · pause · `*g = Some(7); drop(g)` (unlock, then
+    `notify_subs`); thread 1 polls `ready()` (kind 0: then reads synchronously, which blocks
+    on the lock) or `into_future()` / `by_ref()` (kinds 1, 2: `value.poll(cx)` is Pending while
+    the lock is held; `loading` is false, so the waker is NOT pushed to `wakers`).
+    [fixed = false]: the code before commit "fix: awaiting an async derived value polls again
+    when the value is write-locked" returned Pending with nothing registered. *)
+Inductive upc := U0 | UParked (woken : bool) | UBlocked | UDone (v : Z).
+Record wst := mkW { w_val : Z; w_held : bool; w_p0 : nat; w_a : upc; w_polls : nat }.
+
+Definition wstep (fixed : bool) (kind : nat) (t : nat) (s : wst) : wst :=
+  match t with
+  | O =>
+      match w_p0 s with
+      | O => mkW (w_val s) true 1 (w_a s) (w_polls s)
+      | S O => mkW 7 false 2 (match w_a s with UBlocked => UDone 7 | a => a end) (w_polls s)
+      | _ => s
+      end
+  | S O =>
+      let poll :=
+        if w_held s then
+          mkW (w_val s) true (w_p0 s) (match kind with O => UBlocked | _ => UParked fixed end) (S (w_polls s))
+        else mkW (w_val s) false (w_p0 s) (UDone (w_val s)) (S (w_polls s)) in
+      match w_a s with
+      | U0 => poll
+      | UParked true => poll
+      | _ => s
+      end
+  | _ => s
+  end.
+Definition wrun (fixed : bool) (kind : nat) (s : wst) (sched : list nat) : wst :=
+  fold_left (fun s t => wstep fixed kind t s) sched s.
+Definition winit : wst := mkW 1 false 0 U0 0.
+(** nothing can move *)
+Definition w_terminal (s : wst) : Prop :=
+  w_p0 s = 2%nat /\ match w_a s with U0 | UParked true => False | _ => True end.
